@@ -376,7 +376,11 @@ func reportOrderEvents(p *Program, r *Report, or *orderRun, rules orderRules) (n
 			a.n++
 			if c, isRaw := e.A.hasRaw(); isRaw {
 				if a.bad == nil {
-					a.bad, a.whyBad = e, fmt.Sprintf("a slice still in the caller's order (%s; possible classes %s) reaches %s, which requires sorted input", c.String(), e.A.String(), e.What)
+					what := "still in the caller's order"
+					if c.K == ocDesc {
+						what = "sorted in descending order"
+					}
+					a.bad, a.whyBad = e, fmt.Sprintf("a slice %s (%s; possible classes %s) reaches %s, which requires input sorted ascending", what, c.String(), e.A.String(), e.What)
 				}
 			} else {
 				a.okWhy = "argument classes " + e.A.String() + ": never the caller's order"
